@@ -53,6 +53,30 @@ def spec_of_outputs(ctx, items):
 
 # ===================================================================================== C01
 
+def lazy_staircase(rng, delta, steps=10, tail=6000):
+    """Incompressible bytes, then a staircase: at p+i the longest match has length 4+i (i < steps), so a lazy parser
+    defers a match at every one of these positions and emits the superseded literal.  p = 31744 - delta: the literal of
+    p+delta is the 31745th byte of an incompressible block, which is exactly where compress_normal flushes the block from
+    inside its loop, with a deferred match pending.  A compressible tail follows (the next block is Huffman coded)."""
+    vals = list(range(256))
+    for i in range(255, 0, -1):
+        j = rng.below(i + 1)
+        vals[i], vals[j] = vals[j], vals[i]
+    T = bytes(vals[:2 * steps + 8])
+    p = 31744 - delta
+    noise = bytearray(rng.bytes(p))
+    at = 300
+    for i in range(steps):
+        S = T[i:2 * i + 4]
+        noise[at:at + len(S)] = S
+        at += len(S) + rng.range(150, 900)
+    words = [b"alpha ", b"beta ", b"gamma ", b"delta ", b"compress ", b"inflate ", b"0123 "]
+    t = bytearray()
+    while len(t) < tail:
+        t += words[rng.below(len(words))]
+    return bytes(noise) + T + bytes(t[:tail])
+
+
 def c01_cases(ctx):
     rng = ctx.rng
     thorough = ctx.tier == "thorough"
@@ -68,6 +92,13 @@ def c01_cases(ctx):
                 ops.append("cvecrt %d %d @" % (level, rng.below(2)))
             k += 1
             ctx.add("s%d" % k, ops, kind="rt", data=data)
+    # lazy-match staircase straddling the in-loop block flush; compress_to_vec starts with a vector of half the input,
+    # which the first (stored, ~31 KiB) block does not fit: the engine returns early with a deferred match pending
+    for delta in ([0, 2, 5] if not thorough else range(0, 9)):
+        data = lazy_staircase(rng, delta)
+        ops = ["in %s" % hx(data)] + ["cvecrt %d %d @" % (level, z) for level in ([4, 6, 9] if not thorough else range(4, 11)) for z in (0, 1)]
+        k += 1
+        ctx.add("q%d" % k, ops, kind="rt", data=data)
     # all 256 levels on small inputs; values above 10 behave as 10
     for j in range(6 if not thorough else 30):
         data = data_classes(rng, rng.choice([0, 1, 5, 300, 3000]))
@@ -205,6 +236,15 @@ def c02_cases(ctx, sink_variants=True):
         ctx.add("L%d" % k, ["in %s" % hx(data), "cparams %d %d 0 15" % (fmt, level),
                             "cdrive @ %d:%d:0" % (rng.choice([100000000, 65536, 9973]), osz)],
                 kind="stream", data=data, fmt=fmt, level=level, strat=0, wb=15, sink=0)
+    # lazy-match staircase straddling the in-loop flush of an incompressible 31 KiB block (see lazy_staircase)
+    for delta in ([0, 1, 3, 6] if ctx.tier == "quick" else range(0, 9)):
+        data = lazy_staircase(rng, delta)
+        for level in ([4, 7] if ctx.tier == "quick" else [4, 5, 6, 7, 8, 9, 10]):
+            fmt = rng.choice([0, 2])
+            k += 1
+            ctx.add("Q%d" % k, ["in %s" % hx(data), "cparams %d %d 0 15" % (fmt, level),
+                                "cdrive @ %d:%d:0" % (rng.choice([100000000, 9973]), rng.choice([61, 509, 4093]))],
+                    kind="stream", data=data, fmt=fmt, level=level, strat=0, wb=15, sink=0)
     # exhaustive small schedules on three short inputs
     depth = 3 if ctx.tier == "quick" else 4
     alpha = [(c, o, f) for c in (0, 1, 1000) for o in (1, 5, 100000) for f in (0, 2, 3, 4, 7)]
